@@ -1,8 +1,8 @@
 (* C12 — adaptive Simpson (translated quad_asr / simpson_adaptive / simpson_adaptive_2d over R and C):
    exact on cubics for every tolerance and depth; the accepted (Richardson-corrected) value is exact up to degree 5 and
    the acceptance test bounds the error of the uncorrected value; the number of integrand calls is at most
-   2^(depth+1)+1 for EVERY integrand (1-D) and its square (2-D).  (That the pinned algorithm is symmetric in its endpoints,
-   so that reversing the interval does NOT negate the result, is finding F5c: Findings/C12_adaptive_reverse.v.)
+   2^(depth+1)+1 for EVERY integrand (1-D) and its square (2-D); reversing the interval (either axis in 2-D) negates the
+   result for every integrand (finding F5c, repaired by 09f84fe; the old witness is in Findings/retired/).
    The proofs below do not depend on whether the panel value carries |b - a| or (b - a): they are stated for a <= b. *)
 From Coq Require Import Reals QArith ZArith List Bool Lra Lia FunctionalExtensionality.
 From Coquelicot Require Import Coquelicot.
@@ -204,8 +204,9 @@ Qed.
 (* ------------------------------------------------------------------ reversal, conditionally on the panel formula
    The recursion itself is orientation-correct: IF one panel changes sign when its endpoints are swapped (true once
    quad_simpsons_mem uses (b - a) instead of |b - a| — the repair proposed for finding F5c) THEN the adaptive result is
-   negated by reversing the interval, for every integrand, tolerance and depth.  On the pinned tree the hypothesis is
-   false (Findings/C12_adaptive_reverse.v), which localises the defect to that one expression. *)
+   negated by reversing the interval, for every integrand, tolerance and depth.  Before 09f84fe the hypothesis was
+   false (Findings/retired/C12_adaptive_reverse.v), which localised the defect to that one expression; since then it is
+   [S3_antisym] below. *)
 Lemma stop_swap : forall eps a b, stop eps b a = stop eps a b.
 Proof. intros. unfold stop. rewrite (Rabs_minus_sym a b). reflexivity. Qed.
 
@@ -236,6 +237,52 @@ Theorem simpson_adaptive_reverse_if_panel_antisymmetric :
   (forall (f : R -> C) (a b : R), S3 f b a = Copp (S3 f a b)) ->
   forall (f : R -> C) (a b eps : R) d, simpson_adaptive Rops f b a eps d = Copp (simpson_adaptive Rops f a b eps d).
 Proof. intros HS f a b eps d. rewrite !simpson_adaptive_asr. apply asr_reverse_if_panel_antisymmetric. exact HS. Qed.
+
+(* ------------------------------------------------------------------ reversal (the panel carries (b - a), signed) *)
+Lemma S3_antisym : forall (f : R -> C) (a b : R), S3 f b a = Copp (S3 f a b).
+Proof.
+  intros f a b. unfold S3, quad_simpsons_mem. cbv zeta. cbn [fst snd sdiv sadd ssub sabs s_of_Z Rops].
+  replace ((b + a) / 2) with ((a + b) / 2) by field.
+  destruct (f a) as [x y], (f b) as [u v], (f ((a + b) / 2)) as [s t]. cbv [Copp vscale vadd Rops fst snd]. f_equal; field.
+Qed.
+
+Theorem simpson_adaptive_reverse : forall (f : R -> C) (a b eps : R) d,
+  simpson_adaptive Rops f b a eps d = Copp (simpson_adaptive Rops f a b eps d).
+Proof. exact (simpson_adaptive_reverse_if_panel_antisymmetric S3_antisym). Qed.
+
+(* negating the integrand negates the result (the acceptance test only sees |delta|) *)
+Lemma S3_opp : forall (g : R -> C) (a b : R), S3 (fun x => Copp (g x)) a b = Copp (S3 g a b).
+Proof.
+  intros g a b. unfold S3, quad_simpsons_mem. cbv zeta. cbn [fst snd sdiv sadd ssub sabs s_of_Z Rops].
+  destruct (g a) as [x y], (g b) as [u v], (g ((a + b) / 2)) as [s t]. cbv [Copp vscale vadd Rops fst snd]. f_equal; field.
+Qed.
+
+Lemma asr_opp : forall (g : R -> C) d (a b eps : R), asr (fun x => Copp (g x)) a b eps d = Copp (asr g a b eps d).
+Proof.
+  intros g. induction d as [|d IH]; intros a b eps.
+  - rewrite !asr_0. apply S3_opp.
+  - rewrite !asr_S. rewrite S3_opp. destruct (stop eps a b); [reflexivity|].
+    assert (Hd : delta (fun x => Copp (g x)) a b = Copp (delta g a b)).
+    { unfold delta. rewrite !S3_opp.
+      destruct (S3 g a ((a + b) / 2)), (S3 g ((a + b) / 2) b), (S3 g a b). cbv [Copp vadd vsub Rops fst snd]. f_equal; ring. }
+    unfold accept, richardson. rewrite Hd, Cmod_opp. destruct (Rbool_le _ _).
+    + rewrite !S3_opp. destruct (S3 g a ((a + b) / 2)), (S3 g ((a + b) / 2) b), (delta g a b).
+      cbv [Copp vadd vdiv Rops fst snd]. f_equal; field.
+    + rewrite !IH. apply copp_vadd.
+Qed.
+
+Theorem simpson_adaptive_2d_reverse : forall (f : R -> R -> C) (ax bx ay by_ eps : R) d,
+  simpson_adaptive_2d Rops f bx ax ay by_ eps d = Copp (simpson_adaptive_2d Rops f ax bx ay by_ eps d) /\
+  simpson_adaptive_2d Rops f ax bx by_ ay eps d = Copp (simpson_adaptive_2d Rops f ax bx ay by_ eps d).
+Proof.
+  intros f ax bx ay by_ eps d. unfold simpson_adaptive_2d. cbv beta. split.
+  - apply simpson_adaptive_reverse.
+  - change (Sc Rops) with R.
+    replace (fun x : R => simpson_adaptive Rops (fun y : R => f x y) by_ ay eps d)
+      with (fun x : R => Copp (simpson_adaptive Rops (fun y : R => f x y) ay by_ eps d))
+      by (apply functional_extensionality; intros x; symmetry; apply simpson_adaptive_reverse).
+    rewrite !simpson_adaptive_asr. apply asr_opp.
+Qed.
 
 (* ------------------------------------------------------------------ statements in the form Props/C12.v exports *)
 Lemma simpson_adaptive_step : forall (f : R -> C) (a b eps : R) d,
